@@ -17,12 +17,22 @@ class C13(Prop):
             "of 1-3 processors whose ids are prefixes of one another (p1, p10, p1x; every order), each stamping (id, "
             "instance) into the record, each reconfigured in turn; every processor node is judged by the monitor and every "
             "record must carry exactly one stamp per processor in chain order; "
+            "every 10th case (i%10==7) is an operation history over the real processor.Service + lifecycle.Service on a "
+            "v1 pipeline with 1-3 processors: Start (buildable, or the first processor's runnable cannot be built), live "
+            "reconfigurations with every outcome (swap works / undispensable plugin / malformed sdk.egress.* setting / "
+            "invalid condition / new plugin refuses Open) done as provisioning's in-place apply does them, StopAndWait, "
+            "restart, one record through the pipeline, and after each the guards probed with ordinary Update, Delete and "
+            "MakeRunnableProcessor; answers compared with the model coq/Swap/Flag.v and judged by its monitor (refused "
+            "with ErrProcessorRunning exactly while a run is live, records stamped by the live runnable); "
             "thorough adds every schedule up to length 5 over {A,R1,R0,O,P,C0,C1,X}. one case checks the v2 sentinel. distinct = distinct input JSON; non-trivial = at least one record and one request whose new "
             "processor was opened by the node")
     trusted_base = [
         "Coq 8.16.1 kernel + vm_compute (no native_compute)",
         "Go harness harness/cmd/c13 (fake processors with gates, feeder, collector, quiescence detection through "
-        "the read-only hook stream.(*ProcessorNode).VerifPendingSwap) and harness/lib/stopx for the service-level cases",
+        "the read-only hook stream.(*ProcessorNode).VerifPendingSwap) and harness/lib/stopx for the service-level cases "
+        "(its scripted processor registry: numbered plugin instances, an undispensable plugin name, an instance that refuses Open)",
+        "hand-written model coq/Swap/Flag.v of the Instance.running bookkeeping (MakeRunnableProcessor[ForReconfigure], "
+        "Teardown[ForReconfigure], Update/Delete guards, ReconfigureProcessor), one instance at a time",
         "python driver verifpy/core.py",
         "hand-written model coq/Swap/Swap.v of ProcessorNode.Run / Reconfigure / applyPendingSwap; atomicity of the "
         "model's actions rests on swapMu, on Processor being touched by the Run goroutine only and on the buffered "
@@ -51,6 +61,11 @@ class C13(Prop):
         o = case.get("observed") or {}
         if i.get("kind") == "v2":
             return True
+        if i.get("kind") == "flag":
+            # a live reconfiguration that failed, and a guard that was probed while a run was live
+            per = o.get("per") or []
+            return any(any(x.startswith("FReconf") and y == "RErr" for x, y in zip(p.get("ops") or [], p.get("obs") or []))
+                       and "RRunning" in (p.get("obs") or []) for p in per)
         evs = list(o.get("evs") or [])
         for po in o.get("per") or []:
             evs += po.get("evs") or []
@@ -64,18 +79,38 @@ class C13(Prop):
 
     def describe(self, case, code):
         o = case.get("observed") or {}
+        if case["input"].get("kind") == "flag":
+            per = [(p.get("id"), list(zip(p.get("ops") or [], p.get("obs") or []))) for p in (o.get("per") or [])]
+            if code & 2:
+                return ("live reconfigure, service side: after this history the running-flag guards / the live runnable are "
+                        "wrong (Update, Delete, MakeRunnableProcessor must answer ErrProcessorRunning exactly while a run is "
+                        "live; a failed reconfiguration changes nothing): %s; answers per processor: %s%s"
+                        % (case["input"].get("ops"), per, "; " + o["note"] if o.get("note") else ""))
+            return ("live reconfigure, service side: the services left the model of the running flag for history %s; "
+                    "answers per processor: %s" % (case["input"].get("ops"), per))
         if code & 2:
             return ("live reconfigure: the calls the ProcessorNode made violate the property (records %s, results %s, "
                     "note %s) for input %s" % (o.get("acks"), o.get("res"), o.get("note"), case["input"]))
         return "live reconfigure: the ProcessorNode left the model for input %s" % (case["input"],)
 
     def distribution(self, cases):
-        d = {"lock": 0, "race": 0, "svc": 0, "v2": 0, "with_kill": 0, "with_close": 0, "requests": 0, "swaps_applied": 0,
+        d = {"lock": 0, "race": 0, "svc": 0, "flag": 0, "flag_failed_builds": 0, "flag_failed_opens": 0, "flag_swaps": 0,
+             "flag_guard_probes_live": 0, "flag_guard_probes_stopped": 0, "flag_restarts": 0, "v2": 0, "with_kill": 0, "with_close": 0, "requests": 0, "swaps_applied": 0,
              "open_failed": 0, "busy": 0, "cancelled": 0, "records": 0}
         for c in cases:
             i, o = c["input"], c.get("observed") or {}
             k = i.get("kind")
             d[k] = d.get(k, 0) + 1
+            if k == "flag":
+                for p in o.get("per") or []:
+                    pairs = list(zip(p.get("ops") or [], p.get("obs") or []))
+                    d["flag_failed_builds"] += sum(1 for x, y in pairs if x.startswith("FReconf (OBuildFail") and y == "RErr")
+                    d["flag_failed_opens"] += sum(1 for x, y in pairs if x == "FReconf OOpenFail" and y == "RErr")
+                    d["flag_swaps"] += sum(1 for x, y in pairs if x == "FReconf OOk" and y.startswith("RGen"))
+                    d["flag_guard_probes_live"] += sum(1 for x, y in pairs if x in ("FUpdate", "FDelete", "FMake") and y == "RRunning")
+                    d["flag_guard_probes_stopped"] += sum(1 for x, y in pairs if x in ("FUpdate", "FDelete", "FMake") and y == "RNil")
+                    d["flag_restarts"] += max(0, sum(1 for x, y in pairs if x == "FStart None" and y.startswith("RGen")) - 1)
+                continue
             env = i.get("env") or []
             d["with_kill"] += ("K" in env) or (i.get("race") or {}).get("end") == "kill"
             d["with_close"] += "X" in env
